@@ -16,10 +16,10 @@ Proof. exact expand_is_dfs. Qed.
     relative order), no kept call equals an earlier kept one, every input call
     is kept or equals a kept one (so a call is dropped only when an identical
     one was kept before it: first occurrences win).  Full strength. *)
-Theorem C04_dedupe_first_occurrence : forall l,
-  subseq (dedupe l) l /\
-  (forall n1 x n2, dedupe l = n1 ++ x :: n2 -> existsb (fun d => call_eqb d x) n1 = false) /\
-  (forall x, In x l -> In x (dedupe l) \/ existsb (fun d => call_eqb d x) (dedupe l) = true).
+Theorem C04_dedupe_first_occurrence : forall eqk l,
+  subseq (dedupe eqk l) l /\
+  (forall n1 x n2, dedupe eqk l = n1 ++ x :: n2 -> existsb (fun d => call_eqb eqk d x) n1 = false) /\
+  (forall x, In x l -> In x (dedupe eqk l) \/ existsb (fun d => call_eqb eqk d x) (dedupe eqk l) = true).
 Proof. exact dedupe_spec. Qed.
 
 (** Flagship, proved form.  For every signature table with distinct parameter
@@ -29,12 +29,13 @@ Proof. exact dedupe_spec. Qed.
     skipped iff one with the same task and same *effective* arguments was
     executed before, the returned mapping covering exactly the executed tasks)
     -- provided dedupe is off, or literal and effective equality agree on the
-    calls of the session ([agree]).  What is missing from full strength is
+    calls of the session ([agree]; it also forces distinct tasks of the session
+    into distinct Task.__eq__ classes).  What is missing from full strength is
     exactly that guard: see the refutations (F-C04). *)
-Theorem C04_dedupe_spec_partial : forall sig reqs dflt dd,
+Theorem C04_dedupe_spec_partial : forall sig eqk reqs dflt dd,
   wf_sig sig ->
-  (dd = true -> agree sig (dfs (requested reqs dflt)) = true) ->
-  spec_ok sig reqs dflt dd (execute sig reqs dflt dd) = true.
+  (dd = true -> agree sig eqk (dfs (requested reqs dflt)) = true) ->
+  spec_ok sig reqs dflt dd (execute sig eqk reqs dflt dd) = true.
 Proof. exact model_meets_spec. Qed.
 
 (** The unguarded statement is FALSE of the faithful model: `inv setup build`
@@ -43,22 +44,35 @@ Proof. exact model_meets_spec. Qed.
 Theorem C04_dedupe_spec_refuted_effective :
   exists sig reqs,
     wf_sig sig /\
-    execute sig reqs None true =
+    execute sig (fun t => t) reqs None true =
       Ok ([(1, [("clean", VBool false)]); (1, [("clean", VBool false)]); (0, [])], [(1, 1); (0, 2)]) /\
-    spec_ok sig reqs None true (execute sig reqs None true) = false.
+    spec_ok sig reqs None true (execute sig (fun t => t) reqs None true) = false.
 Proof. exact refuted_effective. Qed.
 
 (** ... and so do call(setup, False) and call(setup, clean=False). *)
 Theorem C04_dedupe_spec_refuted_effective_positional :
   exists sig reqs,
-    spec_ok sig reqs None true (execute sig reqs None true) = false /\
-    agree sig (dfs (requested reqs None)) = false.
+    spec_ok sig reqs None true (execute sig (fun t => t) reqs None true) = false /\
+    agree sig (fun t => t) (dfs (requested reqs None)) = false.
 Proof. exact refuted_effective_positional. Qed.
+
+(** ... and so does Task.__eq__ itself: tasks made by one factory function
+    (same name, same code object, different closure) are "the same task" for
+    dedupe, so `execute("staging", "prod")` runs only one of two non-identical
+    invocations (F-C04c; with identity as task equality the same session is
+    accepted). *)
+Theorem C04_dedupe_spec_refuted_factory :
+  exists sig eqk reqs,
+    wf_sig sig /\ eqk 1 = eqk 2 /\
+    execute sig eqk reqs None true = Ok ([(1, [])], [(1, 0)]) /\
+    spec_ok sig reqs None true (execute sig eqk reqs None true) = false /\
+    spec_ok sig reqs None true (execute sig (fun t => t) reqs None true) = true.
+Proof. exact refuted_factory. Qed.
 
 (** With deduplication off nothing is skipped: the log is the depth-first
     order, call by call, each with its bound arguments. *)
-Theorem C04_no_dedupe_identity : forall sig reqs dflt log res,
-  execute sig reqs dflt false = Ok (log, res) ->
+Theorem C04_no_dedupe_identity : forall sig eqk reqs dflt log res,
+  execute sig eqk reqs dflt false = Ok (log, res) ->
   Forall2 (fun f e => eff sig f = Some e) (dfs (requested reqs dflt)) log.
 Proof. exact no_dedupe_identity. Qed.
 
@@ -79,8 +93,8 @@ Proof. exact results_last_wins. Qed.
     positional and keyword arguments, inside the guard, dedupe on: 7 calls
     expanded, 5 executed. *)
 Example C04_example_guard_inhabited :
-  wf_sig ex_sig /\ agree ex_sig (dfs (requested [(ex_top, [])] None)) = true /\
-  execute ex_sig [(ex_top, [])] None true =
+  wf_sig ex_sig /\ agree ex_sig (fun t => t) (dfs (requested [(ex_top, [])] None)) = true /\
+  execute ex_sig (fun t => t) [(ex_top, [])] None true =
     Ok ([(3, []); (1, []); (2, [("n", VInt 5)]); (4, [("xx", VInt 1); ("yy", VNone)]); (0, [])],
         [(3, 0); (1, 1); (2, 2); (4, 3); (0, 4)]) /\
   List.length (dfs (requested [(ex_top, [])] None)) = 7.
